@@ -9,6 +9,7 @@ mod ser;
 mod lay;
 mod kan;
 mod kall;
+mod c01;
 mod c02;
 mod c04;
 mod c05;
@@ -42,6 +43,7 @@ fn main() {
                 "LALL" => lall::gen(tier, seed),
                 "KALL" => kall::gen(tier, seed),
                 "C02" => c02::gen(tier, seed),
+                "C01" => c01::gen(tier, seed),
                 "C14" => c14::gen(tier, seed),
                 "C07" => c07::gen(tier, seed),
                 "C18" => c18::gen(tier, seed),
